@@ -30,7 +30,7 @@ class KaniRun:
             cmd = ['cargo', 'kani', '--target-dir', os.path.join(build.WORK, 'kani-target'), '--harness', self.pattern,
                    '-Z', 'concrete-playback', '--concrete-playback=print']
             try:
-                r = subprocess.run(cmd, cwd=KANI_DIR, env=env, stdout=subprocess.PIPE, stderr=subprocess.STDOUT, text=True, timeout=1500)
+                r = subprocess.run(cmd, cwd=build.crate_dir('kani'), env=env, stdout=subprocess.PIPE, stderr=subprocess.STDOUT, text=True, timeout=1500)
                 self.out = r.stdout
             except subprocess.TimeoutExpired as e:
                 self.out = (e.stdout or '') + '\nTIMEOUT'
